@@ -33,6 +33,7 @@ VARIANTS = {
     "asan": ["-O1", "-g", "-DNDEBUG", "-fsanitize=address,undefined", "-fno-sanitize-recover=all",
              "-fno-sanitize=signed-integer-overflow",   # string/event hash functions wrap on purpose
              "-fno-sanitize=alignment",                 # the compile arena (PreAllocator) is an unaligned bump allocator: DESIGN.md 6, F-C01-f
+             "-fno-sanitize=pointer-overflow",          # the compiler's counting pass does pointer arithmetic on a null code base by design
              "-fno-sanitize=vptr",                      # flex's generated ~yyFlexLexer downcasts during destruction
              "-fno-omit-frame-pointer"],
     "tsan": ["-O1", "-g", "-DNDEBUG", "-fsanitize=thread"],
